@@ -614,7 +614,7 @@ impl World {
         limits: RunLimits,
     ) -> Result<(), crate::error::Execution> {
         let start = Instant::now();
-        let time_limit = start + limits.max_time;
+        let time_limit = start.checked_add(limits.max_time);
         let mut index = 0;
 
         let res = loop {
@@ -655,7 +655,7 @@ impl World {
             }
 
             let now = Instant::now();
-            if now >= time_limit {
+            if time_limit.map_or(false, |limit| now >= limit) {
                 break Err(Execution::RunLimit(crate::error::RunLimit::Timeout));
             }
         };
